@@ -133,6 +133,41 @@ pub fn render_requests(ctx: &mut Ctx, rng: &mut Rng) {
         let entries = random_entries(rng, all, k % 7 == 0);
         emit(ctx, rng, cat, entries);
     }
+    // totals at and around every change in the number of digits (and well beyond): one pattern with one file that has
+    // exactly N findings, and N findings spread over several patterns and files
+    let boundary: [usize; 18] = [9, 10, 11, 99, 100, 101, 999, 1000, 1001, 1005, 1050, 1099, 1100, 2000, 9999, 10000, 10007, 12345];
+    for (bi, &total) in boundary.iter().enumerate() {
+        if !ctx.thorough && total > 2000 && bi % 2 == 1 {
+            continue;
+        }
+        for (cat, all) in [("opt", &opts), ("vuln", &vulns), ("qa", &qas)] {
+            // (a) one pattern, one file
+            let p = all[rng.below(all.len())];
+            let lines: BTreeSet<i32> = (1..=total as i32).collect();
+            emit(ctx, rng, cat, vec![(p.to_string(), vec![("Big.sol".to_string(), lines)])]);
+            // (b) spread
+            let mut entries: Entries = vec![];
+            let mut left = total;
+            let mut pi = 0;
+            while left > 0 {
+                let take = if pi + 1 == all.len() { left } else { (1 + rng.below(left)).min(left) };
+                let nfiles = 1 + rng.below(3).min(take - 1);
+                let mut files = vec![];
+                let mut start = 1i32;
+                for f in 0..nfiles {
+                    let cnt = if f + 1 == nfiles { take - (start as usize - 1) } else { ((take - (start as usize - 1)) / (nfiles - f)).max(1) };
+                    let ls: BTreeSet<i32> = (start..start + cnt as i32).collect();
+                    start += cnt as i32;
+                    files.push((format!("F{}.sol", f), ls));
+                }
+                entries.push((all[pi].to_string(), files));
+                left -= take;
+                pi += 1;
+            }
+            emit(ctx, rng, cat, entries);
+        }
+    }
+    ctx.count("boundary_totals", boundary.len() as u64);
     ctx.count("order_dependent_renderings", order_dependent);
     // the whole report through generate_report (writes solstat_report.md into the current directory)
     let scratch = std::env::temp_dir().join(format!("solstat-verif-report-{}-{}", std::process::id(), ctx.seed));
